@@ -54,6 +54,19 @@ let handle (f : string array) : string =
     (match sm4Cbc e d p2 (bytes_of_hex f.(4)) (bytes_of_hex f.(5)) true with
      | Ok ct -> "ok " ^ s r1 ^ " " ^ s r2 ^ " " ^ hex_of_bytes ct
      | Err _ -> "err" | Panic -> "PANIC" | Hang -> "HANG")
+  | "Q" ->
+    (* a history: calls = fn:dir:key:iv|~:in ; "~" = no SetIV before this call *)
+    let calls = List.map (fun c ->
+      match String.split_on_char ':' c with
+      | [fn; dir; key; iv; x] ->
+        let fn = (match fn with "ecb" -> FnEcb | "cbc" -> FnCbc | "cfb" -> FnCFB | "ofb" -> FnOFB | _ -> failwith "bad fn") in
+        { m_setiv = (if iv = "~" then None else Some (bytes_of_hex iv)); m_fn = fn; m_key = bytes_of_hex key;
+          m_in = bytes_of_hex x; m_mode = (dir = "e") }
+      | _ -> failwith "bad call") (split_list f.(2)) in
+    let rs = modes_run e d init_pkg calls in
+    "ok " ^ String.concat "," (List.map (fun (s, r) ->
+        (match s with None -> "n" | Some (Ok _) -> "o" | Some _ -> "e") ^ "/" ^
+        (match r with Ok o -> hex_of_bytes o | Err _ -> "err" | Panic -> "PANIC" | Hang -> "HANG")) rs) ^ " 1"
   | _ -> "BADCASE"
 
 let () = run_file Sys.argv.(1) handle
